@@ -223,6 +223,14 @@ def _impl_real(case):
                      (n, j, 'collective', (), {}), (n, j, 'collective', (2.0,), {}), (n, j, 'rates', (2,), {}), (n, j, 'activation_energies', (2,), {}),
                      # arguments that compare (and hash) equal as numbers although they are other objects: a plain float, a float carrying a unit
                      (n, j, 'collective', (3.5,), {}), (n, j, 'collective', (FloatWithUnit(3.5, 'bohr'),), {}), (n, j, 'collective', (FloatWithUnit(3.5, 'ang'),), {})]
+            # the same method asked with and without thresholds (each answer is its own object: a thresholded graph is not carved out of the memoised full one)
+            try:
+                ea = sorted(d['e_act'] for _a, _b, d in Jumps.to_graph.__wrapped__(j).edges(data=True))
+            except Exception:
+                ea = []
+            if len(ea) >= 2 and ea[0] < ea[-1]:
+                mid = 0.5 * (ea[0] + ea[-1])
+                plan += [(n, j, 'to_graph', (), {'max_e_act': mid}), (n, j, 'to_graph', (), {'min_e_act': mid}), (n, j, 'to_graph', (), {})]
             from gemdat.collective import Collective
             co = Collective(jumps=j, sites=tr.sites, lattice=traj.get_lattice(), max_steps=8, max_dist=3.5)
             plan += [(n, co, 'site_pair_count_matrix_labels', (), {}), (n, co, 'site_pair_count_matrix', (), {}), (n, co, 'multiple_collective', (), {})]
